@@ -222,7 +222,7 @@ def _parse_tlc(r):
             r.violated.append(line.strip())
         if "Deadlock reached" in line:
             r.violated.append("deadlock")
-    if "POSTCONDITION" in r.out and "violated" in r.out.split("POSTCONDITION")[-1][:200] or "Postcondition" in r.out and "violated" in r.out:
+    if re.search(r"Postcondition \S+ .*is false", r.out):
         r.postcondition_failed = True
     if "Assumption" in r.out and "is false" in r.out:
         r.violated.append("assumption")
@@ -486,3 +486,112 @@ def run_json(cmd, inp=None, timeout=3600, env=None, cwd=None):
         return json.loads(p.stdout)
     except ValueError:
         raise Infra("harness printed no JSON: %s\n%s\n%s" % (" ".join(cmd)[:300], p.stdout[-1000:], p.stderr[-2000:]))
+
+
+# ---------------------------------------------------------------------------- batched trace validation
+
+def split_trace(path, outdir, max_events=60000):
+    """Split an ndjson trace at "reset" events into chunks of at most max_events lines. Returns [(file, first_line, nlines)]."""
+    chunks, cur, n, first, idx = [], None, 0, 1, 0
+    lineno = 0
+    with open(path) as f:
+        for line in f:
+            lineno += 1
+            if cur is None or (n >= max_events and line.startswith('{"ev":"reset"')):
+                if cur:
+                    cur.close()
+                    chunks[-1] = (chunks[-1][0], chunks[-1][1], n)
+                idx += 1
+                p = os.path.join(outdir, "chunk%03d.ndjson" % idx)
+                cur = open(p, "w")
+                chunks.append((p, lineno, 0))
+                n = 0
+            cur.write(line)
+            n += 1
+    if cur:
+        cur.close()
+        chunks[-1] = (chunks[-1][0], chunks[-1][1], n)
+    return chunks
+
+
+def tlc_many(jobs, parallel=None):
+    """jobs: list of kwargs for tlc(); run in a thread pool; returns results in order."""
+    from concurrent.futures import ThreadPoolExecutor
+    parallel = parallel or max(1, min(len(jobs), NCPU // 2))
+    with ThreadPoolExecutor(max_workers=parallel) as ex:
+        futs = [ex.submit(lambda kw=kw: tlc(**kw)) for kw in jobs]
+        return [f.result() for f in futs]
+
+
+def monitor_trace(module, cfg, trace_path, max_events=60000, heap="3g", timeout=900):
+    """Run a monitor specification (accumulating `viol`) over a trace, chunked. Returns (viols [[case,name]..], events, states)."""
+    d = scratch("mon")
+    try:
+        chunks = split_trace(trace_path, d, max_events)
+        jobs = [dict(module=module, cfg=cfg, files={"trace.ndjson": c[0]}, heap=heap, timeout=timeout) for c in chunks]
+        viols, states, events = [], 0, 0
+        for c, r in zip(chunks, tlc_many(jobs)):
+            if not r.ok:
+                raise Infra("monitor %s did not consume its trace chunk (%s): %s" % (module, c[0], r.out[-3000:]))
+            pv = tla_prints(r, "VIOLS")
+            if not pv:
+                raise Infra("monitor %s printed no VIOLS line" % module)
+            viols += json.loads(pv[0][1])
+            states += r.distinct
+            events += c[2]
+        return viols, events, states
+    finally:
+        rm(d)
+
+
+def conform_trace(module, cfg, trace_path, case_of_line, max_events=60000, heap="3g", timeout=900, max_drift=12):
+    """Run a conformance trace specification; a rejected execution is dropped and the rest re-validated.
+    case_of_line(lineno) -> (case_id, first_line, last_line). Returns (drift [(case, line, longest prefix)], visited_max, accepted_events)."""
+    d = scratch("conf")
+    drift = []
+    try:
+        chunks = split_trace(trace_path, d, max_events)
+        pending = [(c[0], c[1]) for c in chunks]
+        visited, accepted = 0, 0
+        rounds = 0
+        while pending and rounds < max_drift:
+            rounds += 1
+            jobs = [dict(module=module, cfg=cfg, files={"trace.ndjson": p}, heap=heap, timeout=timeout) for p, _ in pending]
+            nxt = []
+            for (p, first), r in zip(pending, tlc_many(jobs)):
+                info = None
+                for line in r.prints:
+                    if line.startswith('<<"VISITED"'):
+                        info = parse_tla_value(line)
+                if r.violated and not info:
+                    # an invariant of the specification failed on an implementation trace: the state holds the cursor
+                    m = re.findall(r"/\\ l = (\d+)", r.out)
+                    reached = int(m[-1]) if m else 1
+                    info = ["VISITED", 0, "REACHED", reached, "LEN", 0]
+                    inv = r.violated[0]
+                elif info is None:
+                    raise Infra("conformance run gave no result: " + r.out[-3000:])
+                else:
+                    inv = None
+                visited = max(visited, info[1])
+                reached, length = info[3], info[5]
+                if inv is None and reached == length + 1:
+                    accepted += length
+                    continue
+                # rejected at local line `reached` -> global line
+                gl = first + reached - 1
+                cid, cfirst, clast = case_of_line(gl)
+                drift.append({"case": cid, "line": gl, "offset_in_case": gl - cfirst, "invariant": inv})
+                # drop that execution from the chunk and re-validate the remainder
+                lines = open(p).read().split("\n")
+                lo, hi = cfirst - first, clast - first
+                accepted += lo
+                rest = lines[hi + 1:]
+                if any(x.strip() for x in rest):
+                    with open(p, "w") as f:
+                        f.write("\n".join(rest))
+                    nxt.append((p, clast + 1))
+            pending = nxt
+        return drift, visited, accepted, bool(pending)
+    finally:
+        rm(d)
